@@ -164,6 +164,10 @@ func bodyBytes(kind, slot, class string) []byte {
 		return []byte(`{"cluster_name":5,"version":"x"}`)
 	case "huge_object":
 		return []byte(obj[:len(obj)-1] + `,"pad":"` + strings.Repeat("x", 2<<20) + `"}`)
+	case "empty_object":
+		return []byte("{}")
+	case "empty_object_ws":
+		return []byte(" { \n } \n")
 	case "null":
 		return []byte("null")
 	case "array":
@@ -635,7 +639,12 @@ func (g *gen) generate(n int) {
 			if slot == "ping_head" {
 				continue
 			}
-			for _, b := range bodyClasses {
+			classes := bodyClasses
+			if kind == "elastic" {
+				// the empty object is an object (for docker it is indistinguishable from null in the decoded struct)
+				classes = append(append([]string{}, bodyClasses...), "empty_object", "empty_object_ws")
+			}
+			for _, b := range classes {
 				for k := 0; k < 2; k++ {
 					c := g.base(kind)
 					c.Class = kind + ":" + slot + "=" + b
@@ -648,17 +657,25 @@ func (g *gen) generate(n int) {
 				}
 			}
 			// transport faults and error statuses at every request
-			for _, f := range []resp{{Kind: "close"}, {Kind: "rst"}, {Kind: "stall"}, {Kind: "close", Delay: 30},
+			faults := []resp{}
+			if kind == "elastic" {
+				faults = append(faults, resp{Kind: "resp", Status: 401, Body: "empty_object"},
+					resp{Kind: "resp", Status: 403, Body: "empty_object_ws", CType: "text/plain"})
+			}
+			for _, f := range append(faults, []resp{{Kind: "close"}, {Kind: "rst"}, {Kind: "stall"}, {Kind: "close", Delay: 30},
 				{Kind: "resp", Status: 404, Body: "object"}, {Kind: "resp", Status: 500, Body: "object"},
 				{Kind: "resp", Status: 503, Body: "garbage", CType: "text/html"}, {Kind: "resp", Status: 401, Body: "empty"},
 				{Kind: "resp", Status: 201, Body: "object"}, {Kind: "resp", Status: 400, Body: "endless"},
-				{Kind: "resp", Status: 200, Body: "object", Delay: 100000}} {
+				{Kind: "resp", Status: 200, Body: "object", Delay: 100000}}...) {
 				if slot == "ping_get" && f.Body == "endless" {
 					// an error status makes the client read up to 1 MiB of the body: duration depends on throughput
 					continue
 				}
 				c := g.base(kind)
 				c.Class = fmt.Sprintf("%s:%s:%s/%d", kind, slot, f.Kind, f.Status)
+				if strings.HasPrefix(f.Body, "empty_object") {
+					c.Class += "/" + f.Body
+				}
 				if f.Delay == 100000 { // headers arrive after the deadline
 					f.Delay = c.Timeout + 60
 					c.Class = kind + ":" + slot + ":late"
@@ -730,6 +747,8 @@ func main() {
 	par := flag.Int("par", 24, "probes in flight")
 	e2e := flag.String("e2e", "", "path of an sx binary: add end-to-end cases through the command line")
 	replay := flag.String("replay", "", "JSON file with a list of cases to run again")
+	slow := flag.Bool("slow", false, "add cases whose info is served late but inside a configured timeout ABOVE the scanners' built-in defaults (takes ~11 s)")
+	slowOnly := flag.Bool("slow-only", false, "only the -slow cases")
 	overlap := flag.Int64("overlap", 0, "run ONLY the overlapping-scans stage: at most this many probes per scanner kind")
 	overlapMS := flag.Int("overlap-ms", 3000, "overlapping-scans stage: at most this long")
 	overlapG := flag.Int("overlap-g", 20, "overlapping-scans stage: goroutines per scanner")
@@ -771,7 +790,35 @@ func main() {
 			os.Exit(2)
 		}
 	} else {
-		g.generate(*n)
+		if !*slowOnly {
+			g.generate(*n)
+		}
+		if *slow || *slowOnly {
+			// configured timeout above docker's defaultDataTimeout (10 s) / elastic's (5 s) and the CLI default (5 s);
+			// the answer comes after those but inside the configured one: must be reported
+			for k := 0; k < 2; k++ {
+				c := g.base("docker")
+				c.Class, c.Timeout = "docker:slow-info-within-timeout", 12500
+				r := ok("object")
+				r.Delay = 10600
+				c.Slots["info"] = r
+				c = g.base("docker")
+				c.Class, c.Timeout = "docker:slow-ping-within-timeout", 12500
+				r = ok("object")
+				r.Delay = 10400
+				c.Slots["ping_head"] = r
+				c = g.base("elastic")
+				c.Class, c.Timeout = "elastic:slow-info-within-timeout", 7500
+				r = ok("object")
+				r.Delay = 5600
+				c.Slots["info"] = r
+				c = g.base("elastic")
+				c.Class, c.Timeout = "elastic:slow-info-within-timeout", 12500
+				r = ok("object")
+				r.Delay = 10600
+				c.Slots["info"] = r
+			}
+		}
 		if *e2e != "" {
 			for _, kind := range []string{"elastic", "docker"} {
 				sec := "indexes"
